@@ -82,6 +82,19 @@ Definition ord_wfb (v : list Z) (ord : list nat) : bool :=
 Definition ord_okb (v : list Z) (ord : list nat) : bool :=
   ord_wfb v ord && forallb (fun j => negb (Z.eqb (nth j v 0%Z) 0)) ord.
 
+Fixpoint lay_wfb (vs : list (list Z)) (lay : list (list nat)) : bool :=
+  match vs, lay with
+  | [], [] => true
+  | v :: vs', o :: lay' => ord_wfb v o && lay_wfb vs' lay'
+  | _, _ => false
+  end.
+Fixpoint lay_okb (vs : list (list Z)) (lay : list (list nat)) : bool :=
+  match vs, lay with
+  | [], [] => true
+  | v :: vs', o :: lay' => ord_okb v o && lay_okb vs' lay'
+  | _, _ => false
+  end.
+
 (* the canonical layout: the non-zero positions in increasing order (what a conversion produces) *)
 Definition canon_ord (v : list Z) : list nat := filter (fun j => negb (Z.eqb (nth j v 0%Z) 0)) (seq 0 (length v)).
 Definition canon_lay (vs : list (list Z)) : list (list nat) := map canon_ord vs.
